@@ -1,11 +1,25 @@
 """Resilience wrappers: chains of Bulkhead / CircuitBreaker / Fallback / Hedge / TimeoutWrapper around a slow,
 intermittently failing backend, tuned so that timeouts fire, hedges are sent, circuits open and half-open,
-bulkheads queue, time out and reject, and fallbacks (entity or callable) are used."""
+bulkheads queue, time out and reject, and fallbacks (entity or callable) are used.
+
+Coverage notes (widened):
+  * every constructor parameter of the five wrappers is drawn; every duration (timeout, hedge delay, bulkhead
+    max wait, breaker open time, fallback timeout, backend latencies, fault window, forced open/close/reset
+    instants) comes from `dur_ms` (lossy values, sub-ms decimals, values above 1 s), in every order relative to
+    the backend's latency (timeout shorter / longer than service, hedge delay longer than the request, breaker
+    open time longer than the rest of the run, bulkhead wait shorter than one service time ...);
+  * a "bank" option puts one wrapper of EVERY kind directly in front of a backend of its own (the innermost
+    wrapper is the only one that sees real latency) in one scenario, fed in parallel;
+  * sustained overload (hundreds of requests per second on concurrency-1 bulkheads / half-open breakers),
+    same-instant bursts, zero backend / cache latency, failure probability 0 / every request / in between;
+  * CircuitBreaker.record_success / record_failure / force_open / force_close / reset are all driven.
+No hard-coded size constants in resilience/*.py (no history caps, no sample sizes).
+"""
 from __future__ import annotations
 
 import random
 
-from hv.scenarios.base import T, seed_all, stats_of, sub_seed
+from hv.scenarios.base import T, dur_ms, seed_all, stats_of, sub_seed
 
 NAME = "resilience"
 MODEL = None
@@ -16,49 +30,72 @@ KINDS = ["timeout", "hedge", "bulkhead", "breaker", "fallback"]
 
 def _wrapper_cfg(rng, kind):
     if kind == "timeout":
-        return {"kind": kind, "timeout_ms": rng.choice([8, 15, 30, 60]), "cb": rng.choice(["none", "event", "breaker"])}
+        return {"kind": kind, "timeout_ms": dur_ms(rng, 1, rng.choice([30, 100, 1500])),
+                "cb": rng.choice(["none", "event", "breaker", "breaker-mixed"])}
     if kind == "hedge":
-        return {"kind": kind, "delay_ms": rng.choice([3, 10, 25, 50]), "max_hedges": rng.randint(1, 2)}
+        return {"kind": kind, "delay_ms": dur_ms(rng, 0.5, rng.choice([30, 200, 1200])),
+                "max_hedges": rng.choice([1, 1, 2, 2, 3, 4])}
     if kind == "bulkhead":
-        return {"kind": kind, "max_conc": rng.randint(1, 2), "queue": rng.randint(0, 3),
-                "wait_ms": rng.choice([0, 10, 30, 60])}
+        return {"kind": kind, "max_conc": rng.choice([1, 1, 2, 2, 3, 50]), "queue": rng.choice([0, 0, 1, 2, 3, 100]),
+                "wait_ms": 0 if rng.random() < 0.3 else dur_ms(rng, 0.5, rng.choice([30, 300, 1500]))}   # 0 = None
     if kind == "breaker":
-        return {"kind": kind, "fail_thr": rng.randint(1, 3), "succ_thr": rng.randint(1, 2),
-                "open_ms": rng.choice([50, 120, 400]), "half_open": rng.randint(1, 2),
-                "predicate": rng.random() < 0.8, "force_at_ms": rng.choice([0, 0, 900])}
-    return {"kind": kind, "timeout_ms": rng.choice([0, 10, 30, 60]), "predicate": rng.random() < 0.7,
-            "fb": rng.choice(["entity", "callable", "callable-none"])}
+        return {"kind": kind, "fail_thr": rng.randint(1, 5), "succ_thr": rng.randint(1, 3),
+                "open_ms": dur_ms(rng, 5, rng.choice([120, 600, 2500])), "half_open": rng.randint(1, 3),
+                "predicate": rng.random() < 0.8,
+                "force_at_ms": 0 if rng.random() < 0.6 else dur_ms(rng, 100, 2500),
+                "force_len_ms": dur_ms(rng, 1, 1200),
+                "reset_at_ms": 0 if rng.random() < 0.8 else dur_ms(rng, 100, 2500)}
+    return {"kind": kind, "timeout_ms": 0 if rng.random() < 0.25 else dur_ms(rng, 1, rng.choice([30, 100, 1500])),
+            "predicate": rng.random() < 0.7, "fb": rng.choice(["entity", "callable", "callable-none"])}
+
+
+def _chain_cfg(rng, kinds, overload):
+    return {
+        "wrappers": [_wrapper_cfg(rng, k) for k in kinds],   # outermost first
+        "rate": rng.choice([300, 600] if overload else [20, 40, 60, 100]),
+        "poisson": rng.random() < 0.5,
+        "shared_backend": rng.random() < 0.3,
+        "bursts": [[dur_ms(rng, 50, 2500), rng.choice([3, 10, 40])] for _ in range(rng.choice([0, 0, 1, 2]))],
+    }
 
 
 def gen_cfg(rng):
+    long_run = rng.random() < 0.12
+    overload = (not long_run) and rng.random() < 0.25
     chains = []
-    for _ in range(rng.randint(3, 5)):
-        depth = rng.choice([1, 1, 2, 3])   # only the innermost wrapper sees the backend's real latency
-        kinds = [rng.choice(KINDS) for _ in range(depth)]
-        chains.append({
-            "wrappers": [_wrapper_cfg(rng, k) for k in kinds],   # outermost first
-            "rate": rng.choice([20, 40, 60, 100]),
-            "poisson": rng.random() < 0.5,
-            "shared_backend": rng.random() < 0.3,
-        })
-    # make sure every kind occurs somewhere in most configurations
-    present = [w["kind"] for c in chains for w in c["wrappers"]]
-    for k in KINDS:
-        if k not in present and rng.random() < 0.7:
-            rng.choice(chains)["wrappers"].insert(0, _wrapper_cfg(rng, k))
+    if rng.random() < 0.5:
+        # bank: every wrapper kind once as the innermost wrapper (the only position that sees real latency)
+        for k in KINDS:
+            outer = [rng.choice(KINDS)] if rng.random() < 0.25 else []
+            chains.append(_chain_cfg(rng, outer + [k], overload and rng.random() < 0.3))
+    else:
+        for _ in range(rng.randint(3, 5)):
+            depth = rng.choice([1, 1, 2, 3])   # only the innermost wrapper sees the backend's real latency
+            chains.append(_chain_cfg(rng, [rng.choice(KINDS) for _ in range(depth)], overload and rng.random() < 0.5))
+        # make sure every kind occurs somewhere in most configurations
+        present = [w["kind"] for c in chains for w in c["wrappers"]]
+        for k in KINDS:
+            if k not in present and rng.random() < 0.7:
+                rng.choice(chains)["wrappers"].insert(0, _wrapper_cfg(rng, k))
+    lat_set = []
+    if rng.random() < 0.5:
+        lat_set = [dur_ms(rng, 0.5, rng.choice([20, 150]), zero=True) for _ in range(rng.randint(1, 4))]
     return {
         "chains": chains,
-        "backend": {"fast_ms": [rng.randint(1, 5), rng.randint(5, 20)], "slow_ms": rng.choice([40, 90, 200]),
-                    "p_slow_pct": rng.choice([10, 30, 50]), "fail_every": rng.choice([0, 2, 3, 5]),
-                    "fault": [rng.choice([300, 600, 1000]), rng.choice([200, 500, 900])]},   # start ms, length ms
-        "cache_ms": rng.randint(1, 8),
-        "end": rng.choice([2.0, 3.0, 4.0]),
+        "backend": {"fast_ms": [rng.randint(1, 5), rng.randint(5, 20)],
+                    "lat_set_ms": lat_set,                                # non-empty: fast latencies from this list
+                    "slow_ms": dur_ms(rng, 20, rng.choice([200, 900, 2500])),
+                    "p_slow_pct": rng.choice([0, 10, 30, 50, 100]), "fail_every": rng.choice([0, 1, 2, 3, 5]),
+                    "fault": [dur_ms(rng, 100, 2500), dur_ms(rng, 50, 1500)]},   # start ms, length ms
+        "cache_ms": dur_ms(rng, 0.5, rng.choice([8, 80]), zero=True),
+        "end": rng.choice([8.0, 10.0]) if long_run else rng.choice([2.0, 3.0, 4.0, 2.05, 3.003]),
     }
 
 
 def build(cfg, seed):
     from happysimulator.components.common import Counter, Sink
-    from happysimulator.components.resilience import Bulkhead, CircuitBreaker, Fallback, Hedge, TimeoutWrapper
+    from happysimulator.components.resilience import (Bulkhead, CircuitBreaker, CircuitState, Fallback, Hedge,
+                                                     TimeoutWrapper)
     from happysimulator.core.entity import Entity
     from happysimulator.core.event import Event
     from happysimulator.core.simulation import Simulation
@@ -67,6 +104,7 @@ def build(cfg, seed):
     seed_all(seed)
     end = cfg["end"]
     bc = cfg["backend"]
+    lat_set = bc.get("lat_set_ms") or []
 
     class Backend(Entity):
         """slow (bimodal latency) and failing (every n-th request, and everything inside a fault window)"""
@@ -89,6 +127,8 @@ def build(cfg, seed):
                 self.hedged += 1
             if self.rng.randint(1, 100) <= bc["p_slow_pct"]:
                 yield bc["slow_ms"] / 1000.0
+            elif lat_set:
+                yield self.rng.choice(lat_set) / 1000.0
             else:
                 yield self.rng.randint(bc["fast_ms"][0], bc["fast_ms"][1]) / 1000.0
             t_ms = self.now.nanoseconds // 1_000_000
@@ -142,10 +182,14 @@ def build(cfg, seed):
             kind = w["kind"]
             nm = f"c{ci}.{kind}{depth}"
             if kind == "timeout":
-                def on_timeout(orig, _w=w, _brs=breakers, _nm=nm):
-                    if _w["cb"] == "breaker":
+                def on_timeout(orig, _w=w, _brs=breakers, _nm=nm, _n=[0]):
+                    if _w["cb"] in ("breaker", "breaker-mixed"):
+                        _n[0] += 1
                         for b in _brs:           # external failure detection feeding the breaker(s)
-                            b.record_failure()
+                            if _w["cb"] == "breaker-mixed" and _n[0] % 3 == 0:
+                                b.record_success()
+                            else:
+                                b.record_failure()
                         return None
                     if _w["cb"] == "event":
                         return Event(time=counter.now, event_type=f"TimedOut.{_nm}", target=counter,
@@ -177,12 +221,18 @@ def build(cfg, seed):
                                      on_state_change=on_change)
                 breakers.append(ent)
                 obs[nm + ".more"] = (lambda e=ent, _log=log: {"state": e.state.name, "failures": e.failure_count,
+                                                             "is": [e.state == CircuitState.CLOSED,
+                                                                    e.state == CircuitState.OPEN,
+                                                                    e.state == CircuitState.HALF_OPEN],
                                                              "successes": e.success_count, "log": list(_log)})
                 if w["force_at_ms"]:
                     pre.append(Event.once(time=T(w["force_at_ms"] / 1000.0), event_type=f"{nm}.force_open",
                                           fn=lambda e, b=ent: b.force_open()))
-                    pre.append(Event.once(time=T(w["force_at_ms"] / 1000.0 + 0.3), event_type=f"{nm}.force_close",
-                                          fn=lambda e, b=ent: b.force_close()))
+                    pre.append(Event.once(time=T((w["force_at_ms"] + w.get("force_len_ms", 300)) / 1000.0),
+                                          event_type=f"{nm}.force_close", fn=lambda e, b=ent: b.force_close()))
+                if w.get("reset_at_ms"):
+                    pre.append(Event.once(time=T(w["reset_at_ms"] / 1000.0), event_type=f"{nm}.reset",
+                                          fn=lambda e, b=ent: b.reset()))
             else:
                 if w["fb"] == "entity":
                     fb = cache
@@ -205,6 +255,13 @@ def build(cfg, seed):
         def ctx(time, count, _ci=ci):
             return {"created_at": time, "request_id": count, "res": {}, "key": f"user-{(count * 7 + _ci) % 11}"}
 
+        for bi, (t_ms, nb) in enumerate(ch.get("bursts", [])):
+            if t_ms / 1000.0 >= end - 0.6:
+                continue
+            for j in range(nb):
+                at = T(t_ms / 1000.0)
+                pre.append(Event(time=at, event_type=f"Req{ci}", target=head,
+                                 context=ctx(at, 100000 + bi * 1000 + j)))
         provider = SimpleEventProvider(head, f"Req{ci}", T(end - 0.6), context_fn=ctx)
         mk = Source.poisson if ch["poisson"] else Source.constant
         src = mk(rate=ch["rate"], name=f"src{ci}", event_provider=provider)
